@@ -203,7 +203,10 @@ class Simplifier(pysmt.walkers.DagWalker):
         sl = args[0]
         sr = args[1]
 
-        if sl.is_constant() and sr.is_constant():
+        if sl.is_constant() and sr.is_constant() and \
+           not sl.is_array_value() and not sr.is_array_value():
+            # Array values have no scalar constant_value(): they are
+            # compared only by identity (below)
             l = sl.constant_value()
             r = sr.constant_value()
             return self.manager.Bool(l == r)
